@@ -51,7 +51,10 @@ impl<'a, A: ?Sized + AuthorityImpl> AuthorityMutImpl<'a, A> {
 
 		match userinfo {
 			Some(new_userinfo) => match parse::find_user_info(bytes, self.start) {
-				Some(userinfo_range) => self.replace(userinfo_range, new_userinfo.as_bytes()),
+				Some(userinfo_range) => {
+					self.end = self.end - userinfo_range.len() + new_userinfo.len();
+					self.replace(userinfo_range, new_userinfo.as_bytes())
+				}
 				None => {
 					let added_len = new_userinfo.len() + 1;
 					self.allocate(self.start..self.start, added_len);
@@ -64,7 +67,7 @@ impl<'a, A: ?Sized + AuthorityImpl> AuthorityMutImpl<'a, A> {
 			None => {
 				if let Some(userinfo_range) = parse::find_user_info(bytes, self.start) {
 					self.replace(userinfo_range.start..(userinfo_range.end + 1), b"");
-					self.end -= userinfo_range.end - userinfo_range.start;
+					self.end -= userinfo_range.len() + 1;
 				}
 			}
 		}
@@ -74,14 +77,7 @@ impl<'a, A: ?Sized + AuthorityImpl> AuthorityMutImpl<'a, A> {
 	pub fn set_host(&mut self, host: &A::Host) {
 		let bytes = &self.data[..self.end];
 		let range = parse::find_host(bytes, self.start);
-		let host_len = range.end - range.start;
-
-		if host_len > host.len() {
-			self.end -= host_len - host.len()
-		} else {
-			self.end -= host.len() - host_len
-		}
-
+		self.end = self.end - range.len() + host.len();
 		self.replace(range, host.as_bytes());
 	}
 
@@ -90,7 +86,10 @@ impl<'a, A: ?Sized + AuthorityImpl> AuthorityMutImpl<'a, A> {
 		let bytes = &self.data[..self.end];
 		match port {
 			Some(new_port) => match parse::find_port(bytes, self.start) {
-				Some(range) => self.replace(range, new_port.as_bytes()),
+				Some(range) => {
+					self.end = self.end - range.len() + new_port.len();
+					self.replace(range, new_port.as_bytes())
+				}
 				None => {
 					let added_len = new_port.len() + 1;
 					self.allocate(self.end..self.end, added_len);
@@ -103,7 +102,7 @@ impl<'a, A: ?Sized + AuthorityImpl> AuthorityMutImpl<'a, A> {
 			None => {
 				if let Some(port_range) = parse::find_port(bytes, self.start) {
 					self.replace((port_range.start - 1)..port_range.end, b"");
-					self.end -= port_range.end - port_range.start;
+					self.end -= port_range.len() + 1;
 				}
 			}
 		}
